@@ -62,6 +62,10 @@ fn tl_pool() -> Vec<(String, TlS)> {
     // lockstep: the later member must still win), and another same-timing member with a different property
     v.push(make(Some(0), None, None, false, None, &[(1, 1)])); // 1s to {a:2.0,k:7}
     v.push(make(Some(0), None, None, false, None, &[(1, 2)])); // 1s to {k:3,}
+    // two keyframes at the same position, one in keyword and one in percent form, written percent-first at the
+    // start and keyword-first at the end (tied keyframes keep the order in which they were written)
+    v.push(make(Some(0), None, None, false, None, &[(2, 0), (0, 1), (1, 2)])); // 1s 0% {a:1.0} from {a:2.0,k:7} to {k:3,}
+    v.push(make(Some(2), None, None, false, None, &[(0, 2), (1, 0), (6, 1)])); // 0.5s from {k:3,} to {a:1.0} 100% {a:2.0,k:7}
     v.into_iter().map(|s| (s.render(&s.canonical_order()), s)).collect()
 }
 
